@@ -27,8 +27,17 @@ func H_C04_update() {
 		}
 		return symText(label, n, ascii)
 	}
+	big := vxrt.Param("big", 0)
 	for i := 0; i < k; i++ {
 		old[i] = gen("old")
+		if big > 0 && i == 0 {
+			// a first entry larger than bufio's initial 4096-byte read
+			filler := make([]byte, big)
+			for j := range filler {
+				filler[j] = 'x'
+			}
+			old[i] = string(filler) + "\n" + old[i]
+		}
 		content += frame(names[i]+" - 1", escapeRef(old[i]))
 	}
 	writeFile(path, content)
@@ -37,7 +46,7 @@ func H_C04_update() {
 	newv := make([]string, k)
 	changed := make([]bool, k)
 	for i := 0; i < k; i++ {
-		if vxrt.Bool("changes") {
+		if (big == 0 || i > 0) && vxrt.Bool("changes") {
 			changed[i] = true
 			newv[i] = gen("new")
 			vxrt.Assume(differs(old[i], newv[i]))
